@@ -20,6 +20,8 @@ namespace C16
 @[simp] theorem lit0 : ((0.0 : R)).val = 0 := by simp only [R.sci_val]; norm_num
 @[simp] theorem lit1 : ((1.0 : R)).val = 1 := by simp only [R.sci_val]; norm_num
 @[simp] theorem lit2 : ((2.0 : R)).val = 2 := by simp only [R.sci_val]; norm_num
+@[simp] theorem lit3 : ((3.0 : R)).val = 3 := by simp only [R.sci_val]; norm_num
+@[simp] theorem lit5 : ((5.0 : R)).val = 5 := by simp only [R.sci_val]; norm_num
 @[simp] theorem lit4 : ((4.0 : R)).val = 4 := by simp only [R.sci_val]; norm_num
 @[simp] theorem lit05 : ((0.5 : R)).val = 1 / 2 := by simp only [R.sci_val]; norm_num
 @[simp] theorem eps_val : (RealLike.epsilon : R).val = (2 : ℝ) ^ (-52 : ℤ) := rfl
